@@ -293,6 +293,14 @@ class Executor(object):
                     raise Fail("a %s created under another eps is not equal to a twin eps/1000 apart" % kind, {"eps0": eps0, "eps": eps}, self.facts)
                 if self.guard("hash", lambda: hash(o)) != self.guard("hash", lambda: hash(b)):
                     raise Fail("a %s created under another eps hashes unlike a twin eps/1000 apart" % kind, {"eps0": eps0, "eps": eps}, self.facts)
+                if kind not in ("V", "P", "PLG"):
+                    # ... and they contain each other's defining points (the kept one was built under another eps)
+                    for q in defining_points(kind, [tuple(x) for x in moved]):
+                        if self.guard("in", lambda: G.Point(*q) in o) is not True:
+                            raise Fail("a %s created under another eps does not contain a defining point of its eps/1000 twin" % kind, {"eps0": eps0, "eps": eps, "point": q}, self.facts)
+                    for q in defining_points(kind, base):
+                        if self.guard("in", lambda: G.Point(*q) in b) is not True:
+                            raise Fail("the eps/1000 twin of a %s created under another eps does not contain its defining point" % kind, {"eps0": eps0, "eps": eps, "point": q}, self.facts)
                 if kind != "V":
                     r = self.guard("intersection", lambda: G.intersection(o, b))
                     if type(r) is not type(o) or self.guard("==", lambda: r == fresh) is not True:
